@@ -286,7 +286,13 @@ def r17_5(run):
                message='parseStreamServer raises %s after starting %s' % (src(r.ast)[:40], [src(s.ast)[:40] for s in before]))
 
 
+def r17_6(run):
+    k = dropped_deferreds(run, 'R17.6', [LU(run)], 'listen()')
+    run.floor('R17.6', 'suspension points in listen', k, 4)
+
+
 RULES = [
+    ('R17.6', 'no dropped Deferred in listen(): config, bind and creation are awaited in order', r17_6),
     ('R17.1', 'constant folding: the local listener description is tcp:0 on a loopback interface', r17_1),
     ('R17.2', 'sibling agreement of the four create() legs: mapping "<public> 127.0.0.1:<bound local port>", creator selected by (ephemeral, auth), options passed through', r17_2),
     ('R17.3', 'release-on-failure on the CFG with exception edges: every failure point after the bind reaches exit only through stopListening', r17_3),
@@ -297,6 +303,7 @@ RULES = [
 from ..selftest import M  # noqa: E402
 F = 'txtorcon/endpoints.py'
 MUTANTS = [
+    M('config-bootstrap-not-awaited', F, "        yield self._config.post_bootstrap\n", "        self._config.post_bootstrap\n", ['R17.6']),
     M('bind-all-interfaces', F, "'tcp:0:interface=127.0.0.1',", "'tcp:0',", ['R17.1']),
     M('bind-any', F, "'tcp:0:interface=127.0.0.1',", "'tcp:0:interface=0.0.0.0',", ['R17.1']),
     M('public-port-twice', F, "                        ['%d 127.0.0.1:%d' % (self.public_port, self.local_port)],\n                        private_key=self.private_key,\n                        detach=False,\n                        progress=self._descriptor_progress_update,\n                        version=self.version,\n                        single_hop=self.single_hop,\n                    )", "                        ['%d 127.0.0.1:%d' % (self.public_port, self.public_port)],\n                        private_key=self.private_key,\n                        detach=False,\n                        progress=self._descriptor_progress_update,\n                        version=self.version,\n                        single_hop=self.single_hop,\n                    )", ['R17.2']),
